@@ -641,3 +641,69 @@ pub mod crash {
         }
     }
 }
+
+struct Timer<'a>(&'a str, std::time::Instant);
+impl Drop for Timer<'_> {
+    fn drop(&mut self) {
+        if std::env::var("VERIF_DEBUG").is_ok() {
+            eprintln!("family case {:?}: {} ms", self.0, self.1.elapsed().as_millis());
+        }
+    }
+}
+
+/// Runs a fixed, named family of cases (sizes on the documented limits, shapes no random draw
+/// would reach) through the property's own `check`, 16 at a time; used by `Property::extra`.
+pub fn run_family<P: Property + Sync>(p: &P, ctx: &Ctx, stats: &mut Stats, label: &str, fam: Vec<(String, P::Case)>) -> Vec<(Value, Failure)>
+where
+    P::Case: Sync,
+{
+    if fam.is_empty() {
+        return Vec::new();
+    }
+    let chunk = ((fam.len() + 15) / 16).max(1);
+    let results: Vec<(usize, Report)> = std::thread::scope(|sc| {
+        let mut hs = Vec::new();
+        for (ci, part) in fam.chunks(chunk).enumerate() {
+            let dir = ctx.dir.join(format!("{}{}", label, ci));
+            let tier = ctx.tier;
+            hs.push(sc.spawn(move || {
+                let mut c2 = Ctx { dir, strict: false, tier };
+                part.iter()
+                    .enumerate()
+                    .map(|(i, (name, c))| {
+                        let t0 = std::time::Instant::now();
+                        let _t = Timer(name, t0);
+                        (
+                            ci * chunk + i,
+                            match guarded(|| p.check(c, &mut c2)) {
+                                Ok(r) => r,
+                                Err(m) => {
+                                    let mut r = Report::default();
+                                    r.fail(&format!("harness-panic:{}", panic_site(&m)), m);
+                                    r
+                                }
+                            },
+                        )
+                    })
+                    .collect::<Vec<_>>()
+            }));
+        }
+        hs.into_iter().flat_map(|h| h.join().unwrap()).collect()
+    });
+    let mut fails = Vec::new();
+    for (i, rep) in results {
+        stats.record(&format!("{}:{}", label, fam[i].0), rep.failure.is_none(), Some(label));
+        for c in &rep.classes {
+            *stats.classes.entry(c.to_string()).or_default() += 1;
+        }
+        if let Some(e) = rep.excluded {
+            *stats.excluded.entry(e.to_string()).or_default() += 1;
+        }
+        if let Some(f) = rep.failure {
+            fails.push((serde_json::to_value(&fam[i].1).unwrap(), f));
+        }
+    }
+    stats.extra.insert(format!("{}_cases", label), serde_json::json!(fam.len()));
+    stats.extra.insert(format!("{}_sample", label), serde_json::json!(fam.iter().take(4).map(|x| x.0.clone()).collect::<Vec<_>>()));
+    fails
+}
